@@ -73,7 +73,7 @@ def _decorators(node):
 
 
 class Program:
-    def __init__(self, repo=None):
+    def __init__(self, repo=None, extra_modules=()):
         self.repo = repo or REPO
         self.classes = {}     # name -> ClassInfo  (class names are unique across the package)
         self.functions = {}   # 'Module.qualname' -> FuncInfo
@@ -82,7 +82,7 @@ class Program:
         self.module_imports = {}  # module -> {local name: dotted origin}
         self.sources = {}
         self.file_sha = {}
-        for m in MODULES:
+        for m in list(MODULES) + list(extra_modules):
             self._load(m)
 
     def _load(self, m):
